@@ -79,7 +79,7 @@ CFG = {
             "sextets, 0xfb/0xff bytes, empty, </script> U+2028 NUL); carriers = write_async by hand, the REAL ArcResource / Resource / ArcOnceResource / "
             "OnceResource / SharedValue, each built through the constructor leptos_server names for the codec and, for the four resource carriers, also through its "
             "`*_blocking` twin and ArcResource / Resource / SharedValue also as NESTED carriers whose fetcher / initialiser synchronously creates an inner SharedValue "
-            "before returning (depth-2 creation; a nesting SharedValue only as the page's last carrier) (loads completed by the schedule ops on a controlled executor; oracle at creation: the value is handed to write_async exactly when the "
+            "before returning (depth-2 creation; a nesting SharedValue mostly as the page's last carrier, in a small share followed by more carriers = known finding F-C12-4) (loads completed by the schedule ops on a controlled executor; oracle at creation: the value is handed to write_async exactly when the "
             "flag is on); the error channel: 1-3 boundaries, a pool of three texts per case so that different errors with the same text in one boundary are common, bursts of "
             "1-3 errors before pending_data(), between chunks and after the last value, seal_errors, "
             "incomplete chunks, is_hydrating toggles, islands mode; every completion order when <= 4 values are pending (1 session in 4) else a random "
@@ -118,9 +118,10 @@ CFG = {
         "ECMAScript StringLiteral evaluation; array/assignment/push statements; WHATWG tokenizer script-data states",
     ],
     "assumptions": [
-        "a SharedValue whose initialiser creates further carriers is exercised only as the last carrier of a page: a client that finds the outer value does not run the "
-        "initialiser (shared.rs `value.unwrap_or_else(initial)`), so it never draws the inner ids and later ids would shift -- behaviour of the code as it is, not judged here; "
-        "once-resources take a ready-made future and have no synchronous initialiser to nest in",
+        "once-resources take a ready-made future and have no synchronous initialiser to nest in (nested creation is exercised for ArcResource / Resource fetchers and SharedValue initialisers)",
+        "C12_ids_in_creation_start_order assumes the client runs the same initialisers as the server; a hydrating client that finds a SharedValue's data does not run its "
+        "initialiser: pages on which such an initialiser creates a serialized carrier and more carriers follow are the known finding F-C12-4 (class nested-sharedvalue-id-shift), "
+        "generated in a small share of cases (a nesting SharedValue is otherwise placed last on the page) and reproduced by the model",
         "classic (sloppy-mode) inline scripts, as build_response emits them (the repaired literal uses only \\uXXXX, \\u{…}, \\t \\r \\n \\\\ \\\" and is valid in strict mode too)",
         "ids below 2^53 on the JavaScript side (numbers are kept exact in the model)",
         "the client executes exactly the creations the server made while is_hydrating was on (islands: island bodies; island children are server-only) — C12_ids_align is stated for that discipline; C12_ids_same_program_full_false records that HydrateSharedContext::next_id ignores the flag",
